@@ -7,7 +7,7 @@ of integer variables and constraints to boolean satisfiability clauses.
 Not part of the public API - use Model from cp.py instead.
 """
 
-from itertools import combinations
+from itertools import combinations, product
 from typing import TYPE_CHECKING, Any
 
 from solvor.sat import Status as SATStatus
@@ -145,8 +145,8 @@ class SATEncoder:
         # Handle subtraction: (x - y) ?= c => x ?= y + c
         if isinstance(left, tuple) and left[0] == "sub":
             x, y = left[1], left[2]
-            if isinstance(x, IntVar) and isinstance(y, IntVar):
-                right_const = right if isinstance(right, int) else 0
+            if isinstance(x, IntVar) and isinstance(y, IntVar) and isinstance(right, int):
+                right_const = right
                 if is_ne:
                     for v1 in x.bool_vars:
                         v2 = v1 - right_const
@@ -161,6 +161,10 @@ class SATEncoder:
                         else:
                             self._clauses.append([-x.bool_vars[v1]])
                 return
+
+        if not (self._is_flat_sum(left) and self._is_flat_sum(right)):
+            self._encode_linear(left, right, is_ne)
+            return
 
         left_terms, left_const = self._flatten_sum(left)
         right_terms, right_const = self._flatten_sum(right)
@@ -216,6 +220,51 @@ class SATEncoder:
                         self._clauses.append([var1.bool_vars[v1], -var2.bool_vars[v2]])
                     else:
                         self._clauses.append([-var1.bool_vars[v1]])
+            return
+
+        self._encode_linear(left, right, is_ne)
+
+    def _is_flat_sum(self, expr: Any) -> bool:
+        """True if expr only adds variables and constants (what _flatten_sum reads exactly)."""
+        if isinstance(expr, tuple):
+            return expr[0] == "add" and self._is_flat_sum(expr[1]) and self._is_flat_sum(expr[2])
+        return True
+
+    def _encode_linear(self, left: Any, right: Any, is_ne: bool) -> None:
+        """Encode left ==/!= right for any linear expressions by forbidding the violating value tuples."""
+        from solvor.cp import IntVar
+
+        coefs: dict[str, int] = {}
+        by_name: dict[str, IntVar] = {}
+        const = 0
+
+        def walk(e: Any, k: int) -> None:
+            nonlocal const
+            if isinstance(e, IntVar):
+                coefs[e.name] = coefs.get(e.name, 0) + k
+                by_name[e.name] = e
+            elif isinstance(e, int):
+                const += k * e
+            elif e[0] == "add":
+                walk(e[1], k)
+                walk(e[2], k)
+            elif e[0] == "sub":
+                walk(e[1], k)
+                walk(e[2], -k)
+            elif e[0] == "mul":
+                walk(e[1], k * e[2])
+            elif e[0] == "rsub":
+                const += k * e[2]
+                walk(e[1], -k)
+
+        walk(left, 1)
+        walk(right, -1)
+        names = [name for name, k in coefs.items() if k != 0]
+        domains = [range(by_name[name].lb, by_name[name].ub + 1) for name in names]
+        for values in product(*domains):
+            total = const + sum(coefs[name] * val for name, val in zip(names, values))
+            if (total == 0) == is_ne:
+                self._clauses.append([-by_name[name].bool_vars[val] for name, val in zip(names, values)])
 
     # Sum constraints
 
